@@ -12,9 +12,11 @@
 //!   agg in COUNT(*), COUNT(x), SUM(x), AVG(x), MIN(x), MAX(x), x in {a, b, a+1, b+1} (+ c for
 //!   COUNT/MIN/MAX); grouping in {none, a, c, a+1, (a,c), (c,a+1)}; p in {none, a > 1, c = 'a',
 //!   a < 0 (selects nothing)}; HAVING in {none, agg > 1, agg = 1, COUNT(*) > 1} (text: > 'a', = 'a');
-//!   plus two multi-aggregate select lists.  The full alphabet runs on tables of <= 3 (quick) /
-//!   <= 4 (thorough) rows and the fixed tables; larger tables run the sub-alphabet p in {none,
-//!   a > 1}, HAVING in {none, agg > 1}.
+//!   plus two multi-aggregate select lists.  The FULL pass runs all of it on tables of <= 3
+//!   (quick) / <= 4 (thorough) rows and the fixed tables; the DEEP pass runs the larger tables
+//!   with exactly the constructs of the open findings KF-C16-02..06 left out (`known_broken`:
+//!   expression keys, expression arguments, HAVING over an unselected aggregate, MIN/MAX(text),
+//!   COUNT(col); counted as pruned per finding).
 //!
 //! Oracle: `Query::eval` compared with the observed rows as bags by `bags_loosely_equal`.
 //! Tolerances (all of them): `Int(n)` ~ `Float(n.0)` (result type of SUM/AVG/MIN/MAX is not
@@ -26,8 +28,11 @@
 //! COUNT(*) (fast path) and COUNT(*) WHERE <true> (scan) after each of n single-row DELETEs.
 //!
 //! Signature: C16/<agg>(<arg kind>)/<none|1key|2keys|expr-key>/<empty|all-null|some-null|no-null
-//! [+deleted]>/<having|nohaving>/<expected class>><observed class>
-//!   input class = the blamed aggregate's argument values over the rows that pass WHERE;
+//! [+deleted]>/<nohaving|having|having-unselected>/<expected class>><observed class>
+//!   the blamed aggregate = first select-list aggregate whose cell differs (first of the list for
+//!   group-level failures); having-unselected = HAVING over an aggregate that is not selected;
+//!   input class = the blamed aggregate's argument values over the rows that pass WHERE and
+//!   (for a cell mismatch) belong to the blamed group;
 //!   classes: rows>error, rows>panic, groups>fewer-groups, groups>more-groups, groups>wrong-keys,
 //!   or the blamed cell: null|zero|num|text > null|zero|num|larger|smaller|other-text|<type>.
 use checks::sqlh::{self, Res, TestDb};
@@ -562,86 +567,119 @@ fn check_count_after_deletes(ctx: &Ctx, rep: &mut Reporter, spec: &TableSpec, na
                 Res::Panic(_) => "rows>panic".into(),
                 _ => "rows>error".into(),
             };
+            // COUNT(star-fast) = header fast path, COUNT(star-scan) = same count through a filtered scan
             let sig = format!("{PROP}/COUNT(star-{label})/none/{ic}/nohaving/{cls}");
             rep.violation(PROP, "count-after-delete", &sig, || json!({"variant": "pk", "rows": spec.rows_json(), "scenario": "count-after-delete", "deleted": k}), &format!("[({want})]"), &res.show());
         }
     }
 }
 
-fn run_unit(ctx: &Ctx, rep: &mut Reporter, spec: &TableSpec, li: usize, unit: u64, explain: bool, deep: bool) {
-    let name = format!("u{unit}");
+/// Constructs that are known-broken on the current tree (findings.d/C16.json); the deep pass
+/// (larger tables) leaves them out, the full pass runs them.
+fn known_broken(qd: &QDesc) -> Option<u8> {
+    if qd.grouping.sig == "expr-key" {
+        return Some(6);
+    }
+    if qd.aggs.iter().any(|a| a.kind.ends_with("+1")) {
+        return Some(3);
+    }
+    if qd.having_sig() == "having-unselected" {
+        return Some(4);
+    }
+    if qd.aggs.iter().any(|a| a.is_text()) {
+        return Some(5);
+    }
+    if qd.aggs.iter().any(|a| a.func == AggFunc::Count && a.arg.is_some()) {
+        return Some(2);
+    }
+    None
+}
+
+/// All queries of the selected aggregate lists on one table, on one fresh database.
+fn run_table(ctx: &Ctx, rep: &mut Reporter, spec: &TableSpec, ti: usize, lists: &[(String, Vec<Agg>)], explain: bool, deep: bool) {
+    let name = format!("t{ti}");
     let (mut t, mdb) = match setup(&ctx.scratch, &name, spec) {
         Ok(x) => x,
         Err(e) => {
             rep.count("setup_failures", 1);
-            rep.note(&format!("setup failed (unit skipped): {}", vcore::util::clip(&e, 200)));
+            rep.note(&format!("setup failed (table skipped): {}", vcore::util::clip(&e, 200)));
             return;
         }
     };
-    let (list, aggs) = agg_lists().swap_remove(li);
     let mut dirty = false;
     let mut n = 0u64;
-    for grouping in groupings() {
-        for (where_name, where_) in wheres() {
-            for (having_name, having) in havings(&aggs[0]) {
-                if aggs[0].arg.is_none() && aggs.len() == 1 && having_name == "count>1" {
-                    continue; // same SQL as agg>k
-                }
-                if deep && (!matches!(where_name, "none" | "a>1") || !matches!(having_name, "none" | "agg>k")) {
-                    rep.pruned(1);
-                    continue;
-                }
-                let qd = QDesc { list: list.clone(), aggs: aggs.clone(), grouping: grouping.clone(), where_name, where_: where_.clone(), having_name, having };
-                if dirty && check_one(&t, &mdb, spec, &qd, rep, true) == Verdict::Fail {
-                    rep.count("rechecked_on_fresh_db_after_panic", 1);
-                    drop(t);
-                    match setup(&ctx.scratch, &name, spec) {
-                        Ok(x) => t = x.0,
-                        Err(_) => {
-                            rep.count("setup_failures", 1);
-                            return;
+    for (list, aggs) in lists {
+        for grouping in groupings() {
+            for (where_name, where_) in wheres() {
+                for (having_name, having) in havings(&aggs[0]) {
+                    if aggs[0].arg.is_none() && aggs.len() == 1 && having_name == "count>1" {
+                        continue; // same SQL as agg>k
+                    }
+                    let qd = QDesc { list: list.clone(), aggs: aggs.clone(), grouping: grouping.clone(), where_name, where_: where_.clone(), having_name, having };
+                    if deep {
+                        if let Some(k) = known_broken(&qd) {
+                            rep.pruned(1);
+                            rep.count(&format!("deep_pass_left_out_KF-C16-{k:02}"), 1);
+                            continue;
                         }
                     }
-                    dirty = false;
-                }
-                let v = check_one(&t, &mdb, spec, &qd, rep, false);
-                if v == Verdict::Panicked {
-                    dirty = true;
-                }
-                if v != Verdict::Skipped {
-                    n += 1;
-                    if qd.having.is_some() {
-                        rep.count("queries_having", 1);
-                    }
-                    if qd.where_.is_some() {
-                        rep.count("queries_where", 1);
-                    }
-                    rep.count(&format!("queries_grouping_{}", qd.grouping.sig), 1);
-                }
-                if explain {
-                    let sql = qd.query().to_sql();
-                    match sqlh::explain(t.db(), &sql) {
-                        Some(p) => {
-                            let ops = plan_ops(&p);
-                            for o in &ops {
-                                rep.count(&format!("plan_op_{o}"), 1);
-                            }
-                            rep.outcome(&format!("plan:{}", ops.join(">")));
-                            // `is_simple_count_star`: one COUNT aggregate directly over an unfiltered scan
-                            if ops == ["Project", "HashAggregate", "TableScan"] && aggs.len() == 1 && aggs[0].func == AggFunc::Count && qd.grouping.keys.is_empty() && qd.where_.is_none() && qd.having.is_none() {
-                                rep.count(if aggs[0].arg.is_none() { "count_header_fast_path_shape_COUNT(*)" } else { "count_header_fast_path_shape_COUNT(x)" }, 1);
+                    if dirty && check_one(&t, &mdb, spec, &qd, rep, true) == Verdict::Fail {
+                        rep.count("rechecked_on_fresh_db_after_panic", 1);
+                        drop(t);
+                        match setup(&ctx.scratch, &name, spec) {
+                            Ok(x) => t = x.0,
+                            Err(_) => {
+                                rep.count("setup_failures", 1);
+                                return;
                             }
                         }
-                        None => rep.count("explain_failed", 1),
+                        dirty = false;
+                    }
+                    let v = check_one(&t, &mdb, spec, &qd, rep, false);
+                    if v == Verdict::Panicked {
+                        dirty = true;
+                    }
+                    if v != Verdict::Skipped {
+                        n += 1;
+                        if qd.having.is_some() {
+                            rep.count("queries_having", 1);
+                        }
+                        if qd.where_.is_some() {
+                            rep.count("queries_where", 1);
+                        }
+                        rep.count(&format!("queries_grouping_{}", qd.grouping.sig), 1);
+                        if !deep && known_broken(&qd).is_some() {
+                            rep.count(if v == Verdict::Pass { "full_pass_known_broken_construct_passed" } else { "full_pass_known_broken_construct_failed" }, 1);
+                        }
+                    }
+                    if explain {
+                        let sql = qd.query().to_sql();
+                        match sqlh::explain(t.db(), &sql) {
+                            Some(p) => {
+                                let ops = plan_ops(&p);
+                                for o in &ops {
+                                    rep.count(&format!("plan_op_{o}"), 1);
+                                }
+                                rep.outcome(&format!("plan:{}", ops.join(">")));
+                                // `is_simple_count_star`: one COUNT aggregate directly over an unfiltered scan
+                                if ops == ["Project", "HashAggregate", "TableScan"] && aggs.len() == 1 && aggs[0].func == AggFunc::Count && qd.grouping.keys.is_empty() && qd.where_.is_none() && qd.having.is_none() {
+                                    rep.count(if aggs[0].arg.is_none() { "count_header_fast_path_shape_COUNT(*)" } else { "count_header_fast_path_shape_COUNT(x)" }, 1);
+                                }
+                            }
+                            None => rep.count("explain_failed", 1),
+                        }
                     }
                 }
             }
+        }
+        if ctx.expired() {
+            rep.capped("deadline inside a table");
+            break;
         }
     }
     rep.bulk(n, if spec.rows.is_empty() { 0 } else { n });
     rep.count("queries", n);
     rep.count(if deep { "queries_deep_pass" } else { "queries_full_pass" }, n);
-    rep.count("units", 1);
 }
 
 struct C16;
@@ -651,13 +689,13 @@ impl Check for C16 {
         let mut s = Spec::new(
             PROP,
             "exploration",
-            "a case is one aggregate query on one table.  Tables: every multiset of <=4 (quick) / <=6 (thorough) rows over (a,c) in {NULL,1,2}x{NULL,'a','b'} with the REAL column b a fixed function of (a,c) (values NULL/0.5/1.5/2.5), as t(a INT,b REAL,c TEXT) and with an INT PRIMARY KEY, incl. the empty and all-NULL tables, plus five fixed 8-row tables.  Queries: SELECT [g,] agg FROM t [WHERE p] [GROUP BY g[,h]] [HAVING agg cmp k]: 23 single aggregates (COUNT(*), COUNT/MIN/MAX over a,b,a+1,b+1,c, SUM/AVG over a,b,a+1,b+1) + 2 multi-aggregate lists x 6 groupings (none,a,c,a+1,(a,c),(c,a+1)) x 4 WHERE (none, a>1, c='a', a<0) x 4 HAVING (none, agg>1, agg=1, COUNT(*)>1) on tables of <=3 (quick) / <=4 (thorough) rows and the fixed tables; on larger tables 2 WHERE x 2 HAVING.  On every pk table of the full pass: COUNT(*) via the header fast path and via a scan after each of n single-row DELETEs.  Expected rows = refmodel Query::eval of the same Query value that rendered the SQL; compared as bags.  Distinct = distinct (table, SQL text) by construction; non-trivial = table not empty.",
+            "a case is one aggregate query on one table.  Tables: every multiset of <=4 (quick) / <=6 (thorough) rows over (a,c) in {NULL,1,2}x{NULL,'a','b'} with the REAL column b a fixed function of (a,c) (values NULL/0.5/1.5/2.5), as t(a INT,b REAL,c TEXT) and with an INT PRIMARY KEY, incl. the empty and all-NULL tables, plus five fixed 8-row tables.  Queries: SELECT [g,] agg FROM t [WHERE p] [GROUP BY g[,h]] [HAVING agg cmp k]: 23 single aggregates (COUNT(*), COUNT/MIN/MAX over a,b,a+1,b+1,c, SUM/AVG over a,b,a+1,b+1) + 2 multi-aggregate lists x 6 groupings (none,a,c,a+1,(a,c),(c,a+1)) x 4 WHERE (none, a>1, c='a', a<0) x 4 HAVING (none, agg>1, agg=1, COUNT(*)>1) on tables of <=3 (quick) / <=4 (thorough) rows and the fixed tables (full pass); on the larger tables (deep pass) the same with the constructs of the open findings KF-C16-02..06 left out (counted as pruned).  On every pk table of the full pass: COUNT(*) via the header fast path and via a scan after each of n single-row DELETEs.  Expected rows = refmodel Query::eval of the same Query value that rendered the SQL; compared as bags.  Distinct = distinct (table, SQL text) by construction; non-trivial = table not empty.",
         );
         s.assumptions = &[
             "oracle = refmodel::sql (cross-checked against SQLite): aggregates ignore NULL except COUNT(*); empty or all-NULL input gives COUNT 0 and NULL for SUM/AVG/MIN/MAX; one group per distinct key with NULL keys forming one group; an aggregate query without GROUP BY has exactly one row; HAVING keeps groups whose condition is TRUE",
             "tolerances: Int(n) ~ Float(n.0), floats within 1e-9 relative, row order free; nothing else",
             "every database is fresh; a failure observed after a panic on the same handle is re-checked on a fresh database before it is reported",
-            "EXPLAIN plan-operator counters are sampled (every 16th table + the fixed tables)",
+            "EXPLAIN plan-operator counters are sampled (every 16th table + the fixed tables); the COUNT header fast path is recognised by its plan shape + query shape (is_simple_count_star has no other observable)", "work is split by table (one fresh database per table), the fixed tables by (table, aggregate list)",
         ];
         s.cap_quick_s = 100;
         s.cap_thorough_s = 1700;
@@ -675,31 +713,48 @@ impl Check for C16 {
         let tables = all_tables(kmax, kfull);
         rep.bound("tables", json!(tables.len()));
         let lists = agg_lists();
-        let nl = lists.len() as u64 + 1; // + the delete scenario
+        // work is split by table (one database per table); a fixed 8-row table is split by list
+        let mut slot = 0u64;
         for (ti, spec) in tables.iter().enumerate() {
             let deep = !spec.fixed && spec.rows.len() > kfull;
-            let mut any = false;
-            for li in 0..lists.len() {
-                let unit = ti as u64 * nl + li as u64;
-                if !ctx.mine(unit) {
-                    continue;
+            let mine: Vec<(String, Vec<Agg>)> = if spec.fixed {
+                lists
+                    .iter()
+                    .filter(|_| {
+                        slot += 1;
+                        ctx.mine(slot)
+                    })
+                    .cloned()
+                    .collect()
+            } else {
+                slot += 1;
+                if ctx.mine(slot) {
+                    lists.clone()
+                } else {
+                    vec![]
                 }
-                any = true;
+            };
+            if !mine.is_empty() {
+                let first = mine[0].0 == "COUNT(*)";
                 let explain = spec.fixed || (ti / 2) % 16 == 3;
-                run_unit(ctx, rep, spec, li, unit, explain, deep);
-            }
-            let unit = ti as u64 * nl + lists.len() as u64;
-            if spec.pk && !deep && !spec.rows.is_empty() && ctx.mine(unit) {
-                any = true;
-                check_count_after_deletes(ctx, rep, spec, &format!("u{unit}"), None);
-            }
-            if any {
-                rep.count("tables_touched", 1);
-                if spec.rows.is_empty() {
-                    rep.count("tables_touched_empty", 1);
-                } else if spec.rows.iter().all(|(a, c)| a.is_none() && c.is_none()) {
-                    rep.count("tables_touched_all_null", 1);
+                run_table(ctx, rep, spec, ti, &mine, explain, deep);
+                if first {
+                    // (a fixed table is shared by several workers: count it once)
+                    rep.count("tables", 1);
+                    if spec.rows.is_empty() {
+                        rep.count("tables_empty", 1);
+                    } else if spec.rows.iter().all(|(a, c)| a.is_none() && c.is_none()) {
+                        rep.count("tables_all_null", 1);
+                    }
+                    if deep {
+                        rep.count("tables_deep_pass", 1);
+                    }
                 }
+            }
+            slot += 1;
+            if spec.pk && !deep && !spec.rows.is_empty() && ctx.mine(slot) {
+                rep.count("tables_with_delete_scenario", 1);
+                check_count_after_deletes(ctx, rep, spec, &format!("d{ti}"), None);
             }
             if ctx.expired() {
                 rep.capped(&format!("deadline at table #{ti} ({} rows{}): every table with fewer rows was covered", spec.rows.len(), if spec.fixed { ", fixed" } else { "" }));
